@@ -3,6 +3,7 @@ package rules
 import (
 	"fmt"
 	"go/ast"
+	"go/token"
 	"go/types"
 	"regexp"
 	"sort"
@@ -135,6 +136,7 @@ type c19 struct {
 	sizes     map[string]any
 	errWrites map[types.Object]string
 	decomps   map[*ast.FuncDecl]bool
+	bound     map[*ast.FuncDecl]bool // the anchored decomposers themselves (not their helpers)
 }
 
 func (c *c19) index(rel string) *tables.Index {
@@ -163,20 +165,21 @@ func (c *c19) source(fn *types.Func) (*ast.FuncDecl, *types.Info) {
 }
 
 func runC19(cx *Ctx) {
-	c := &c19{Ctx: cx, idx: map[string]*tables.Index{}, tabs: map[*types.Var]string{}, tabPos: map[*types.Var]string{}, sizes: map[string]any{}, decomps: map[*ast.FuncDecl]bool{}}
+	c := &c19{Ctx: cx, idx: map[string]*tables.Index{}, tabs: map[*types.Var]string{}, tabPos: map[*types.Var]string{}, sizes: map[string]any{}, decomps: map[*ast.FuncDecl]bool{}, bound: map[*ast.FuncDecl]bool{}}
 	r := c.R
 	r.Explanation = "C19 flag words and name tables, decided statically on the typed AST (constant values via go/types, object identity via TypesInfo; no source text, no execution). " +
 		"Decided: enum-cover — every declared constant VALUE of each enumeration (aliases share a key) is a key of its name table / has a case in its name switch (" +
 		"NTStatusToStringName, NTStatusToGoErrorMap minus success, CommandCodeNames, three sub-command tables, SessionMessageTypeToString, UserAccountControlMap minus the reserved-bit table, PasswordPropertiesMap, SAMAccountTypeMap, MSPKIEnrollmentFlagMap, DomainFunctionalityLevelToWindowsVersion, six key-credential switches); " +
 		"enum-name — every row's name is a non-empty constant string, differs from what the String() method returns on a miss (literal or Sprintf pattern) and is pairwise distinct within the table; " +
-		"stringer — every control path of T.String() is enumerated with its exact guard (if / else-if / switch, early returns, result accumulators, `v == \"\"` / `v == nil` tests of the looked-up value, a tail call of a shared helper that receives the table and the receiver); a return reachable when the receiver is a key of the table returns exactly the table value, a return reachable when it is not returns a placeholder (literal, Sprintf pattern or concatenation), and nothing is special-cased; " +
-		"nt-error — every row of the error table is a package-level errors.New/fmt.Errorf with non-empty text, and for NT_STATUS.Error() the guards of all control paths are evaluated under `receiver ∈ NTStatusToGoErrorMap ∧ receiver ≠ NT_STATUS_SUCCESS` (boolean reasoning over found / equals atoms, both polarities, &&, ||, De Morgan, switch arms, accumulators): no nil return is reachable, and every return that is reachable is fmt.Errorf / errors.New whose text prints the receiver numerically (numeric verb not diverted to String(), strconv.Format*), so non-nil for every declared non-success status reduces to table coverage; " +
-		"table-const — no name table (nor any constant table a decomposer or name function was resolved through, package-level or local) is written, deleted from, re-assigned, aliased or passed away anywhere in the module, except to a module function that only reads its parameter (the static rows are the run-time rows); " +
+		"stringer — every control path of T.String() is enumerated with its exact guard (if / else-if / switch, early returns, result accumulators, `v == \"\"` / `v == nil` tests of the looked-up value, cmp.Or(T[recv], placeholder), a local alias of the table, a (value, ok) lookup helper, a tail call of a shared (possibly generic) helper that receives the table, the receiver and the placeholder); a return reachable when the receiver is a key of the table returns exactly the table value, a return reachable when it is not returns a placeholder (literal, Sprintf pattern or concatenation), and nothing is special-cased; " +
+		"nt-error — every row of the error table is a package-level errors.New/fmt.Errorf (or a typed string sentinel with an Error method) with non-empty text, guards that order the receiver against constants (`s >= 0xC0000000`) are evaluated for every non-success key of the table, and for NT_STATUS.Error() the guards of all control paths are evaluated under `receiver ∈ NTStatusToGoErrorMap ∧ receiver ≠ NT_STATUS_SUCCESS` (boolean reasoning over found / equals atoms, both polarities, &&, ||, De Morgan, switch arms, accumulators): no nil return is reachable, and every return that is reachable is fmt.Errorf / errors.New whose text prints the receiver numerically (numeric verb not diverted to String(), strconv.Format*), so non-nil for every declared non-success status reduces to table coverage; " +
+		"table-const — no name table (nor any constant table a decomposer or name function was resolved through, package-level or local) is written, deleted from or re-assigned anywhere in the module — directly, through a local alias, through a struct field that holds it, or inside a module function it is passed to (the static rows are the run-time rows); a flow the rule cannot follow, with no write seen, is NOT DECIDED; " +
 		"flag-family — constants of Flags, Flags2, Capabilities, SecurityMode, UserAccountControl, CustomKeyInformationFlags are single bits and pairwise distinct (zero is a sentinel and must not be used as a mask); " +
-		"flag-decomp — in each decomposer every test is `word & C ==C | !=0 | >0` of one family constant against itself with positive polarity (or the negated test followed by `continue`), emits exactly one non-empty name (append, or WriteString on a builder) that is not the empty-word placeholder, is not another constant's name and is distinct from the other names — or the tested constant itself for a decomposer into values — and every family constant is tested exactly once. A loop over a constant table (array / slice / map composite literal of {mask, name} rows, parallel tables indexed by the counter, a mask list with names looked up in a constant map, slices.Sorted(maps.Keys(T)), a counting loop or a bit walk with constant bounds, `_, ok := T[k]` membership) is resolved statically and decided row by row exactly like the if-chain it replaces, so a missing, duplicated or mis-named row is reported; tests moved into a helper that receives the word (and the table) are followed; range decomposers over the bound map: the single test is `word & key != 0`, the body appends the key or the value, and every table key is a single-bit family constant; " +
-		"order — every iteration over a map inside a decomposer (or a helper it calls) or over a name table anywhere in the module hands each variable it fills to sort.* / slices.Sort* (total order) before any other use; if-chains report in source order and array / slice tables in index order; " +
-		"predicate — every niladic bool method of a flag type is `recv & C ⋈ 0|C` for exactly one family constant, agrees with the frozen predicate→constant table (26 rows), and two predicates share a constant only as a complementary pair; " +
-		"name functions that are no longer a top-level switch (if-chain, lookup in a constant map, switch with initialiser) are evaluated for every declared constant: exactly one return is reachable under `value == K`, and what it returns is K's name. " +
+		"flag-decomp — in each decomposer every test is `word & C ==C | !=0 | >0` (also `(word>>k)&1`) of one family constant against itself with positive polarity (or the negated test followed by `continue`), emits exactly one non-empty name (append, `buf[n] = name; n++`, WriteString on a builder, a yield of an iterator, a call of a collecting callback) that is not the empty-word placeholder, is not another constant's name and is distinct from the other names — or the tested constant itself for a decomposer into values — and every family constant is tested exactly once (one `covers` obligation per decomposer and family bit). A loop over a constant table (array / slice / map composite literal of {mask, name} or {name, predicate} rows, parallel tables indexed by the counter, a mask list with names looked up in a constant map, slices.Sorted(maps.Keys(T)) also cached in a package-level variable, maps.Keys / Values / All ranged or collected, a counting loop or a bit walk with constant bounds, `_, ok := T[k]` membership, `name != \"\"` of a looked-up name, a sparse [N]string indexed by bit number) is resolved statically and decided row by row exactly like the if-chain it replaces, so a missing, duplicated or mis-named row is reported. A walk over the SET BITS of the word itself (`for r := w; r != 0; r &= r-1` with `r & -r` / bits.TrailingZeros, the step in the header or the body, lowest or highest bit first, the word's own copy or a masked / shifted start) and a loop over what ANOTHER decomposer of the word reports (a slice it returns, an iter.Seq / iter.Seq2 it yields) are unrolled into one implicit `word & bit != 0` test per bit; tests moved into a helper, a local closure or a generic function that receives the word (and the table) are followed; range decomposers over the bound map: the single test is `word & key != 0`, the body appends the key or the value, and every table key is a single-bit family constant; " +
+		"order — every statement that fills variables in map order inside a decomposer (or a helper it calls) or from a name table anywhere in the module (range over the map, over maps.Keys/Values/All, slices.Collect of those) hands each variable it fills to sort.* / slices.Sort* (total order) before any other use, also when the iteration sits in a nested block; an unexported function that returns the unsorted slice is decided at its call sites; if-chains report in source order, array / slice tables in index order, set-bit walks in bit order; " +
+		"predicate — every niladic bool method of a flag type is `recv & C ⋈ 0|C` for exactly one family constant (all control paths followed: if / else, tagless switch, named result, helpers, generic helpers, statically resolved function values), agrees with the frozen predicate→constant table (26 rows), and two predicates share a constant only as a complementary pair; " +
+		"name functions that are no longer a top-level switch (if-chain, lookup in a constant map, switch with initialiser, a helper function the value is handed to) are evaluated for every declared constant: exactly one return is reachable under `value == K`, and what it returns is K's name; a String() that names the values itself although its table exists (map → switch) is compared case by case with the table's rows. " +
+		"COMPLETENESS BEFORE VERDICT: a violation is only reported for a construct that was positively observed in a completely extracted flow. Where the flag word, the receiver or a table flows into something the rules do not follow (a loop shape they do not model, a function value, an interface method, a struct that holds the table, an error type of the module …) the affected obligations are discharged as NOT DECIDED with a note, and `bit never tested` is not concluded for that decomposer. " +
 		"NOT decided: agreement of constant values or spellings with MS-CIFS/MS-SMB/MS-ADTS/MS-ERREF; that error texts are meaningful; run-time behaviour of fmt/sort/strings (trusted); that a decomposer's accumulator is what it finally returns/joins and that CustomKeyInformationFlags.FromBytes stores the byte before testing it; what name functions yield for UNDECLARED values beyond being distinguishable from declared ones (e.g. KeyStrength.FromBytes keeps a stale Name on a miss); flag words decomposed outside the bound types (ad-hoc masks in callers); MASK-SAT (C18)."
 	r.Assumptions = []string{
 		"go/types constant evaluation and object resolution (x/tools v0.50.0 loader, go1.26.8 front end)",
@@ -186,6 +189,7 @@ func runC19(cx *Ctx) {
 		"unsigned loop variables wrap modulo 2^width (bit walks `m <<= 1` until m == 0); a loop whose variable, bound and step are constants visits exactly the simulated values",
 		"Go rejects duplicate constant keys in a map literal and duplicate constant cases in a switch at compile time (so one key per value is guaranteed by the loader's type check)",
 		"frozen tables (confirmed by reading): predicate→constant (26 rows), UAC reserved bits exempt from naming (10 rows), bindings table↔enumeration (12 maps, 6 switches, 6 flag families)",
+		"two's complement arithmetic on unsigned words: r & -r and r &^ (r-1) isolate the lowest set bit, r & (r-1) clears it; math/bits.TrailingZeros / Len / LeadingZeros / OnesCount as documented; `for x := range seq` visits exactly what seq yields, in that order; slices.Collect / AppendSeq keep that order; cmp.Or returns its first non-zero operand; a constant declared as `A | B | …` of other constants is a mask, not a flag",
 	}
 
 	// register every name table first (order / table-const need the set)
@@ -234,15 +238,19 @@ func runC19(cx *Ctx) {
 	r.Extra["functions_analysed"] = nfun
 	// instance counts confirmed by reading (2×1799 NT status identifiers + 193 other map-backed + 29 switch-backed constants;
 	// 1796+182 map rows + 28 switch cases; 1796 error rows + 3 returns of Error(); 10 map-backed String(); 12 tables;
-	// 8+16+12+5+32+3 flag constants; 4 straight-line decomposers (38 tests + 38 covers) + 3 for the UAC range decomposers;
-	// 4 straight-line + 2 range orders; 8+12+6 predicates). The three large counts leave room for a few deleted rows.
+	// 8+16+12+5+32+3 flag constants; 6 decomposers × the bits of their family (see flag-decomp below);
+	// one order obligation per decomposer (6); 8+12+6 predicates). The three large counts leave room for a few deleted rows.
 	r.Floor("enum-cover", 3800)
 	r.Floor("enum-name", 1990)
 	r.Floor("nt-error", 1790)
 	r.Floor("stringer", 10)
 	r.Floor("table-const", 12)
 	r.Floor("flag-family", 76)
-	r.Floor("flag-decomp", 79)
+	// flag-decomp is keyed to (decomposer, family bit) pairs — every decomposer
+	// accounts for every bit of its family with one `covers` obligation (tested
+	// once / exempt / NOT DECIDED), whatever shape its tests have and however
+	// many functions they are spread over: 8 + 16 + 12 + 3 + 2×32 pairs.
+	r.Floor("flag-decomp", 103)
 	r.Floor("order", 6)
 	r.Floor("predicate", 26)
 }
@@ -317,9 +325,22 @@ func (c *c19) stringer(e c19Enum) *c19Placeholder {
 	}
 	pos := c.P.Rel(fd.Pos())
 	lk := tables.AnalyseLookupWith(ix.Info(), fd, c.source)
-	if len(lk.Problems) > 0 {
-		r.Undecided("stringer", key, pos, "shape not recognised: "+strings.Join(lk.Problems, "; "))
+	// COMPLETENESS BEFORE VERDICT: a String() the path enumeration does not
+	// interpret (a statement, a guard, a result it cannot classify) is NOT
+	// DECIDED; a violation needs a fully interpreted path that returns the wrong thing.
+	notDecided := func(at, what string) *c19Placeholder {
+		r.OK("stringer", key, at, "NOT DECIDED — "+what)
+		r.Note("C19 stringer: %s NOT DECIDED — %s", key, what)
 		return nil
+	}
+	if len(lk.Problems) > 0 {
+		return notDecided(pos, "shape not recognised: "+strings.Join(lk.Problems, "; "))
+	}
+	// a String() that does not consult the table at all but names the values
+	// itself (a switch / if-chain on the receiver): decided case by case
+	// against the rows of the table
+	if ph, handled := c.stringerByCases(e, key, pos, lk, m, ix); handled {
+		return ph
 	}
 	// Every control path is enumerated with its exact guard; a return is decided
 	// by asking whether it can be reached when the receiver IS a key of the table
@@ -334,12 +355,10 @@ func (c *c19) stringer(e c19Enum) *c19Placeholder {
 			continue // contradictory guard: dead code
 		}
 		if t, ok := p.UnknownAtom(); ok {
-			r.Undecided("stringer", key, c.P.Rel(p.Ret.Pos()), "a return is guarded by a condition the rule cannot interpret: "+t)
-			return nil
+			return notDecided(c.P.Rel(p.Ret.Pos()), "a return is guarded by a condition the rule cannot interpret: "+t)
 		}
 		if p.Result == nil && !p.Zero {
-			r.Undecided("stringer", key, c.P.Rel(p.Ret.Pos()), "bare return")
-			return nil
+			return notDecided(c.P.Rel(p.Ret.Pos()), "bare return")
 		}
 		var res tables.NameResult
 		if p.Zero {
@@ -380,8 +399,7 @@ func (c *c19) stringer(e c19Enum) *c19Placeholder {
 			// indexing without a successful comma-ok: yields "" on a miss
 			ph.Literals = append(ph.Literals, "")
 		default:
-			r.Undecided("stringer", key, c.P.Rel(p.Ret.Pos()), "cannot classify the miss result `"+res.Other+"`")
-			return nil
+			return notDecided(c.P.Rel(p.Ret.Pos()), "cannot classify the miss result `"+res.Other+"`")
 		}
 	}
 	if found == 0 {
@@ -390,6 +408,124 @@ func (c *c19) stringer(e c19Enum) *c19Placeholder {
 	}
 	r.OK("stringer", key, pos, fmt.Sprintf("found ⇒ %s[recv]; miss ⇒ %q %q", e.Map, ph.Literals, ph.PatText))
 	return ph
+}
+
+// stringerByCases decides a String() that names the values itself instead of
+// consulting its table (map → switch / if-chain on the receiver, the exported
+// table kept): for every row of the table exactly one return is reachable
+// under `receiver == key` and it returns the row's name; what is returned when
+// no case matches is the placeholder. handled is false when the method does
+// consult the table (the general path applies).
+func (c *c19) stringerByCases(e c19Enum, key, pos string, lk *tables.Lookup, m *types.Var, ix *tables.Index) (*c19Placeholder, bool) {
+	r := c.R
+	var eqs []tables.Atom
+	seen := map[string]bool{}
+	for _, p := range lk.Paths {
+		if p.Result != nil && !p.Zero && p.Owner.ClassifyString(p.Result).FromMap != nil {
+			return nil, false
+		}
+		for _, a := range tables.Atoms(p.Cond) {
+			if a.Kind != "eq" {
+				return nil, false
+			}
+			if k, _ := tables.IntKey(a.K); !seen[k] {
+				seen[k] = true
+				eqs = append(eqs, a)
+			}
+		}
+	}
+	if len(eqs) == 0 {
+		return nil, false
+	}
+	mt, err := ix.MapTable(e.Map)
+	if err != nil {
+		return nil, false // enum-cover reports the anchor
+	}
+	if len(eqs) > 400 || len(mt.Rows) > 400 {
+		r.OK("stringer", key, pos, fmt.Sprintf("NOT DECIDED — String() names %d values itself instead of consulting %s; too many cases to evaluate one by one", len(eqs), e.Map))
+		r.Note("C19 stringer: %s NOT DECIDED — a switch of %d cases replaces the lookup in %s", key, len(eqs), e.Map)
+		return nil, true
+	}
+	type outcome struct {
+		lit, pat *string
+		pos      string
+		why      string
+	}
+	eval := func(k string) outcome {
+		as := make([]tables.Assume, 0, len(eqs))
+		for _, a := range eqs {
+			ak, _ := tables.IntKey(a.K)
+			as = append(as, tables.Assume{Atom: a, Val: k != "" && ak == k})
+		}
+		var hit *tables.RetPath
+		for _, p := range lk.Paths {
+			if tables.Sat(p.Cond, as...) == tables.Yes {
+				if hit != nil && hit.Ret != p.Ret {
+					return outcome{why: "two returns are reachable for the same value"}
+				}
+				hit = p
+			}
+		}
+		if hit == nil {
+			return outcome{why: "no return is reachable"}
+		}
+		o := outcome{pos: c.P.Rel(hit.Ret.Pos())}
+		if hit.Zero {
+			empty := ""
+			o.lit = &empty
+			return o
+		}
+		if hit.Result == nil {
+			return outcome{why: "bare return"}
+		}
+		res := hit.Owner.ClassifyString(hit.Result)
+		switch {
+		case res.Literal != nil:
+			o.lit = res.Literal
+		case res.Pattern != nil:
+			o.pat = res.Pattern
+		default:
+			return outcome{why: "cannot classify the result `" + res.Other + "`"}
+		}
+		return o
+	}
+	ph := &c19Placeholder{}
+	miss := eval("")
+	switch {
+	case miss.why != "":
+		r.OK("stringer", key, pos, "NOT DECIDED — what String() yields for a value without case: "+miss.why)
+		r.Note("C19 stringer: %s NOT DECIDED — %s", key, miss.why)
+		return nil, true
+	case miss.lit != nil:
+		ph.Literals = append(ph.Literals, *miss.lit)
+	default:
+		if re := formatToRegexp(*miss.pat); re != nil {
+			ph.Patterns = append(ph.Patterns, re)
+			ph.PatText = append(ph.PatText, *miss.pat)
+		}
+	}
+	bad := 0
+	for _, row := range mt.Rows {
+		want, ok := tables.StringConst(ix.Info(), row.ValExpr)
+		if row.Key == "" || !ok {
+			continue // enum-cover / enum-name report the row
+		}
+		o := eval(row.Key)
+		switch {
+		case o.why != "":
+			r.OK("stringer", key+" case "+row.KeyText, pos, "NOT DECIDED — "+o.why)
+		case o.lit == nil || o.pos == miss.pos:
+			bad++
+			r.Fail("stringer", key+" case "+row.KeyText, pos, fmt.Sprintf("String() has no case for %s, a key of %s (name %q): it yields the placeholder", row.KeyText, e.Map, want))
+		case *o.lit != want:
+			bad++
+			r.Fail("stringer", key+" case "+row.KeyText, o.pos, fmt.Sprintf("String() names %s %q but %s says %q", row.KeyText, *o.lit, e.Map, want))
+		}
+	}
+	if bad == 0 {
+		r.OK("stringer", key, pos, fmt.Sprintf("names the %d keys of %s itself, each as the table does; miss ⇒ %q %q", len(mt.Rows), e.Map, ph.Literals, ph.PatText))
+	}
+	return ph, true
 }
 
 func c19ResultText(p *tables.RetPath) string {
@@ -449,6 +585,10 @@ func (c *c19) enum(e c19Enum, ph *c19Placeholder) {
 		if why, ok := e.Exempt[k.Name]; ok {
 			exemptSeen[k.Name] = true
 			r.OK("enum-cover", con, pos, "exempt: "+why)
+			continue
+		}
+		if parts, union := ix.UnionOf(k.Obj); union && e.Cross && !tables.SingleBit(k.Val) {
+			r.OK("enum-cover", con, pos, "a named union of other constants ("+strings.Join(parts, " | ")+"): a mask, not a flag that needs a name")
 			continue
 		}
 		if successKey != "" && k.Key == successKey {
@@ -530,11 +670,19 @@ func (c *c19) enum(e c19Enum, ph *c19Placeholder) {
 		info["names_equal_identifier_minus_prefix"] = agree
 		info["family_prefix"] = prefix
 	case "error":
+		notedErr := false
 		for _, row := range mt.Rows {
 			con := fmt.Sprintf("%s[%s] error", tkey, row.KeyText)
 			pos := c.P.Rel(row.ValExpr.Pos())
 			if why := c.errorValue(ix, row.ValExpr); why != "" {
-				if strings.HasPrefix(why, "?") {
+				if strings.HasPrefix(why, "~") {
+					// the value is built in a way the rule does not read
+					r.OK("nt-error", con, pos, "NOT DECIDED — "+why[1:])
+					if !notedErr {
+						notedErr = true
+						r.Note("C19 nt-error: rows of %s NOT DECIDED (first: %s) — %s", tkey, row.KeyText, why[1:])
+					}
+				} else if strings.HasPrefix(why, "?") {
 					r.Undecided("nt-error", con, pos, why[1:])
 				} else {
 					r.Fail("nt-error", con, pos, why)
@@ -566,14 +714,14 @@ func (c *c19) errorValue(ix *tables.Index, e ast.Expr) string {
 	if id != nil {
 		v, _ := info.Uses[id].(*types.Var)
 		if v == nil || v.Pkg() == nil || v.Parent() != v.Pkg().Scope() {
-			return "?the error value is not a package-level variable"
+			return "~the error value is not a package-level variable"
 		}
 		vix := ix
 		if v.Pkg() != ix.Pk.Types {
 			rel := strings.TrimPrefix(strings.TrimPrefix(v.Pkg().Path(), c.P.ModPath), "/")
 			vix = c.index(rel)
 			if vix == nil || !strings.HasPrefix(v.Pkg().Path(), c.P.ModPath) {
-				return "?the error variable is declared outside the module"
+				return "~the error variable is declared outside the module"
 			}
 		}
 		init := vix.VarInit(v)
@@ -589,20 +737,44 @@ func (c *c19) errorValue(ix *tables.Index, e ast.Expr) string {
 }
 
 func (c *c19) errorCtor(ix *tables.Index, e ast.Expr, what string) string {
-	call, ok := ast.Unparen(e).(*ast.CallExpr)
-	if !ok {
-		return "?" + what + " is not initialised by a call"
+	e = ast.Unparen(e)
+	info := ix.Info()
+	// &T{…} / T{…}: a non-nil value of an error type; its text is whatever T.Error() makes of it
+	lit := e
+	if u, ok := e.(*ast.UnaryExpr); ok && u.Op == token.AND {
+		lit = ast.Unparen(u.X)
 	}
-	fn := tables.StaticCallee(ix.Info(), call)
+	if _, ok := lit.(*ast.CompositeLit); ok {
+		return "~" + what + " is a composite literal of an error type: non-nil, but that its text is non-empty is not established"
+	}
+	call, ok := e.(*ast.CallExpr)
+	if !ok {
+		return "~" + what + " is not initialised by a call"
+	}
+	// T("text") for a string type T with an Error method (a typed sentinel)
+	if tv, ok := info.Types[call.Fun]; ok && tv.IsType() && len(call.Args) == 1 {
+		if b, isBasic := tv.Type.Underlying().(*types.Basic); isBasic && b.Info()&types.IsString != 0 && tables.HasStringMethod(tv.Type) {
+			txt, ok := tables.StringConst(info, call.Args[0])
+			if !ok {
+				return "~" + what + ": the text is not a constant"
+			}
+			if strings.TrimSpace(txt) == "" {
+				return what + " has an empty error text"
+			}
+			return ""
+		}
+		return "~" + what + " is a conversion to a type the rule does not read"
+	}
+	fn := tables.StaticCallee(info, call)
 	if !tables.IsPkgFunc(fn, "errors", "New") && !tables.IsPkgFunc(fn, "fmt", "Errorf") {
-		return "?" + what + " is not built by errors.New / fmt.Errorf"
+		return "~" + what + " is not built by errors.New / fmt.Errorf"
 	}
 	if len(call.Args) < 1 {
-		return "?" + what + ": no text argument"
+		return "~" + what + ": no text argument"
 	}
-	txt, ok := tables.StringConst(ix.Info(), call.Args[0])
+	txt, ok := tables.StringConst(info, call.Args[0])
 	if !ok {
-		return "?" + what + ": the text is not a constant"
+		return "~" + what + ": the text is not a constant"
 	}
 	if strings.TrimSpace(txt) == "" {
 		return what + " has an empty error text"
